@@ -18,8 +18,8 @@ THEOREMS = ["C12_iteration_expression_agrees", "C12_iteration_predicate_agrees",
             "C12_sql_predicate_agrees", "C12_all_ranges_ok"]
 HDR = "From DR Require Import Model.CheckExpr.\nOpen Scope Z_scope.\n"
 SPEC_HDR = "From DR Require Import Spec.CheckExprSpec.\nOpen Scope Z_scope.\n"
-IT = iteration.Engine(name="it", functions={"vid": lambda x: x})
-SQL = sql.Engine(name="sql", functions={"vid": lambda x: x})
+IT = iteration.Engine(name="it", functions={"vid": lambda x: x, "vid_it": lambda x: x})
+SQL = sql.Engine(name="sql", functions={"vid": lambda x: x, "vid_sql": lambda x: x})
 DB = sqlalchemy.create_engine("sqlite://")
 
 
